@@ -85,6 +85,9 @@ type C06Rec struct {
 	// "keyword argument".
 	Extra map[string][]string `json:"extra,omitempty"`
 	Exts  []string            `json:"exts,omitempty"`
+	// TSig: "kind/range/length" of the resolved type (only the families of c06scope.go, in which
+	// every typedef has a restriction of its own, so that the signature names the typedef)
+	TSig string `json:"tsig,omitempty"`
 }
 
 // C06Late is a module loaded after the first Process: it uses a grouping once more.
@@ -153,6 +156,8 @@ type c06 struct {
 	// pin: revision-date written in the import statement of file -> imported module (revision
 	// families, c06rev.go; nil otherwise: imports carry no revision-date)
 	pin map[*Module]map[*Module]string
+	// sig: when set, the type signature recorded as C06Rec.TSig of every leaf / leaf-list (c06scope.go)
+	sig func(leaf *Node) string
 }
 
 // c06TreeKey is the key of Modules.Modules under which the tree of m is found: the bare name,
@@ -1373,6 +1378,9 @@ func (g *c06) rec(mod *Module, steps []c06Step, n *Node, pend []*Node) C06Rec {
 		r.LA = min + ":" + max + ":" + u
 	}
 	r.Extra, r.Exts = extrasOf(n, pend)
+	if g.sig != nil && (n.Kw == "leaf" || n.Kw == "leaf-list") {
+		r.TSig = g.sig(n)
+	}
 	return r
 }
 
